@@ -297,6 +297,45 @@ def _pure_boolean(e):
     return False
 
 
+def _pure_arith(e, top=True):
+    """A number, or + - * between a number and a name / attribute chain /
+    such an expression: a named constant (`first_day = 1`, `limit =
+    CALENDAR.MINUTES_IN_HOUR - 1`).  Every operation has a literal number
+    on one side, so it is arithmetic on numbers and not an overloaded
+    operator building an object (`self + offset`)."""
+    if isinstance(e, ast.Constant):
+        return isinstance(e.value, (int, float)) and not isinstance(
+            e.value, bool)
+    if isinstance(e, ast.UnaryOp) and isinstance(e.op, (ast.USub, ast.UAdd)):
+        return _pure_arith(e.operand)
+    if isinstance(e, ast.BinOp) and isinstance(
+            e.op, (ast.Add, ast.Sub, ast.Mult)):
+        def operand(x):
+            if isinstance(x, ast.Name):
+                return True
+            if isinstance(x, ast.Attribute):
+                while isinstance(x, ast.Attribute):
+                    x = x.value
+                return isinstance(x, ast.Name)
+            return _pure_arith(x)
+        return (_pure_arith(e.left) and operand(e.right)) or (
+            operand(e.left) and _pure_arith(e.right))
+    return False
+
+
+def _rotatable(e):
+    """f(<names, attributes, constants, arithmetic>) with f a plain name"""
+    if isinstance(e, ast.Call):
+        return isinstance(e.func, ast.Name) and not e.keywords and all(
+            _rotatable(a) for a in e.args) and e.func.id not in (
+                "next", "input", "iter", "open")
+    if isinstance(e, ast.BinOp):
+        return _rotatable(e.left) and _rotatable(e.right)
+    if isinstance(e, ast.UnaryOp):
+        return _rotatable(e.operand)
+    return _pure_operand(e)
+
+
 def _pure_operand(e):
     if isinstance(e, (ast.Name, ast.Constant)):
         return True
@@ -447,7 +486,9 @@ class Canon:
                 continue
             v = st.targets[0].id
             if v in u.banned or u.stores.get(v) != 1 or \
-                    u.loads.get(v, 0) < 2:
+                    u.loads.get(v, 0) < (1 if _pure_arith(st.value) or
+                                         isinstance(st.value, ast.Name)
+                                         else 2):
                 continue
             chain = st.value
             attrs = []
@@ -457,12 +498,17 @@ class Canon:
             roots = None
             if attrs and isinstance(chain, ast.Name):
                 roots = {chain.id}
-            elif _pure_boolean(st.value):
+            elif isinstance(st.value, ast.Name) and \
+                    st.value.id != v and st.value.id not in self._params:
+                # a copy of another local (not of a parameter: `new = self`
+                # is what the aliasing rules are there to see)
+                roots = {st.value.id}
+            elif _pure_boolean(st.value) or _pure_arith(st.value):
                 roots = {n.id for n in ast.walk(st.value)
                          if isinstance(n, ast.Name)}
                 attrs = [n.attr for n in ast.walk(st.value)
                          if isinstance(n, ast.Attribute)]
-            if not roots:
+            if roots is None:
                 continue
             if any(r in u.banned and r not in self._params for r in roots):
                 continue
@@ -614,6 +660,91 @@ class Canon:
         while i < len(stmts):
             s = stmts[i]
             nxt = stmts[i + 1] if i + 1 < len(stmts) else None
+            # T26: q, r = divmod(a, b)  ->  q = a // b ; r = a % b  (a, b
+            #      free of calls and of q, r; a part whose name is never
+            #      read is dropped)
+            if isinstance(s, ast.Assign) and len(s.targets) == 1 and \
+                    isinstance(s.targets[0], ast.Tuple) and len(
+                        s.targets[0].elts) == 2 and all(
+                            isinstance(t, ast.Name)
+                            for t in s.targets[0].elts) and isinstance(
+                                s.value, ast.Call) and isinstance(
+                                    s.value.func, ast.Name) and \
+                    s.value.func.id == "divmod" and len(
+                        s.value.args) == 2 and not s.value.keywords and \
+                    "divmod" not in self.usage.stores:
+                q_, r_ = s.targets[0].elts
+                a_, b_ = s.value.args
+                names = {n.id for x in (a_, b_) for n in ast.walk(x)
+                         if isinstance(n, ast.Name)}
+                if q_.id != r_.id and not ({q_.id, r_.id} & names) and \
+                        not any(isinstance(n, (ast.Call, ast.NamedExpr,
+                                               ast.Starred))
+                                for x in (a_, b_) for n in ast.walk(x)) \
+                        and (self.usage.loads.get(q_.id, 0) == 0 or
+                             self.usage.loads.get(r_.id, 0) == 0):
+                    for t, op in ((q_, ast.FloorDiv()), (r_, ast.Mod())):
+                        if self.usage.loads.get(t.id, 0) == 0:
+                            continue
+                        out.append(ast.copy_location(ast.Assign(
+                            targets=[t], value=ast.BinOp(
+                                left=copy.deepcopy(a_), op=op,
+                                right=copy.deepcopy(b_)),
+                            type_comment=None), s))
+                    self.did("T26.divmod-part")
+                    i += 1
+                    continue
+            # T24: a, b = x, y  ->  a = x ; b = y   (names on the left,
+            #      none of them read on the right)
+            if isinstance(s, ast.Assign) and len(s.targets) == 1 and \
+                    isinstance(s.targets[0], ast.Tuple) and isinstance(
+                        s.value, ast.Tuple) and len(s.value.elts) == len(
+                            s.targets[0].elts) and all(
+                                isinstance(t, ast.Name)
+                                for t in s.targets[0].elts) and not any(
+                                    isinstance(e, ast.Starred)
+                                    for e in s.value.elts):
+                tnames = {t.id for t in s.targets[0].elts}
+                if len(tnames) == len(s.targets[0].elts) and not any(
+                        isinstance(n, ast.Name) and n.id in tnames
+                        for e in s.value.elts for n in ast.walk(e)) and \
+                        sum(1 for e in s.value.elts
+                            for n in ast.walk(e)
+                            if isinstance(n, ast.Call)) <= 1:
+                    for t, e in zip(s.targets[0].elts, s.value.elts):
+                        out.append(ast.copy_location(ast.Assign(
+                            targets=[t], value=e, type_comment=None), s))
+                    self.did("T24.split-tuple-assign")
+                    i += 1
+                    continue
+            # T23: v = E ; while T(v): BODY ; v = E
+            #        ->  while T(E): v = E ; BODY     (E: calls of plain
+            #        functions on names/attributes - taken to be pure, as
+            #        the length helpers are; no continue in BODY)
+            if isinstance(s, ast.Assign) and len(s.targets) == 1 and \
+                    isinstance(s.targets[0], ast.Name) and isinstance(
+                        nxt, ast.While) and not nxt.orelse and len(
+                            nxt.body) >= 2 and isinstance(
+                                nxt.body[-1], ast.Assign) and ast.dump(
+                                    nxt.body[-1]) == ast.dump(s) and \
+                    _rotatable(s.value) and not any(
+                        isinstance(x, ast.Continue)
+                        for b in nxt.body for x in ast.walk(b)) and \
+                    _count_loads(nxt.test, s.targets[0].id) >= 1:
+                v_ = s.targets[0].id
+                later = stmts[i + 2:]
+                used_later = any(_count_loads(x, v_) for x in later)
+                new_loop = ast.copy_location(ast.While(
+                    test=_ReplaceAll(v_, s.value).visit(
+                        copy.deepcopy(nxt.test)),
+                    body=[copy.deepcopy(s)] + nxt.body[:-1], orelse=[]),
+                    nxt)
+                out.append(new_loop)
+                if used_later:
+                    out.append(copy.deepcopy(s))
+                self.did("T23.loop-carried-temp")
+                i += 2
+                continue
             # T20: v = reduce(lambda a, x: E, S, I)
             #        ->  v = I ; for x in S: v = E[a := v]
             if isinstance(s, (ast.Assign, ast.Return)) and isinstance(
@@ -726,6 +857,23 @@ class Canon:
                             ast.AugAssign(target=t, op=s.value.op,
                                           value=s.value.right), s)
                         self.did("T6.augassign")
+            if isinstance(s, ast.AugAssign) and isinstance(
+                    s.op, (ast.Add, ast.Sub)):
+                neg = None
+                if isinstance(s.value, ast.UnaryOp) and isinstance(
+                        s.value.op, ast.USub):
+                    neg = s.value.operand
+                elif isinstance(s.value, ast.Constant) and isinstance(
+                        s.value.value, (int, float)) and not isinstance(
+                            s.value.value, bool) and s.value.value < 0:
+                    neg = ast.copy_location(
+                        ast.Constant(value=-s.value.value), s.value)
+                if neg is not None:
+                    s = ast.copy_location(ast.AugAssign(
+                        target=s.target,
+                        op=ast.Sub() if isinstance(s.op, ast.Add)
+                        else ast.Add(), value=neg), s)
+                    self.did("T6.augassign-sign")
             # T2
             low = self._lower_ifexp(s)
             if low is not None:
@@ -1354,6 +1502,34 @@ class Canon:
                         else:
                             setattr(n, field, r)
                         self.did("T18.getattr-const")
+                        continue
+                    r = _len_relative_slice(x)
+                    if r is not None:
+                        if isinstance(val, list):
+                            val[k] = r
+                        else:
+                            setattr(n, field, r)
+                        self.did("T27.len-relative-slice")
+                        continue
+                    r = _fold_int_arith(x)
+                    if r is not None:
+                        if isinstance(val, list):
+                            val[k] = r
+                        else:
+                            setattr(n, field, r)
+                        self.did("T25.fold-int-arith")
+                        continue
+                    in_test = (isinstance(n, (ast.If, ast.While, ast.IfExp))
+                               and field == "test") or (isinstance(
+                                   n, ast.UnaryOp) and isinstance(
+                                       n.op, ast.Not))
+                    r = _anyall_literal(x, in_test)
+                    if r is not None:
+                        if isinstance(val, list):
+                            val[k] = r
+                        else:
+                            setattr(n, field, r)
+                        self.did("T22.anyall-literal")
         for n in ast.walk(s):
             for field, val in list(ast.iter_fields(n)):
                 if isinstance(val, ast.IfExp):
@@ -1466,6 +1642,97 @@ def _bool_index(x):
     else:
         return None
     return ast.copy_location(ast.IfExp(test=x.slice, body=b, orelse=a), x)
+
+
+def _len_relative_slice(x):
+    """s[:len(s) - 1] -> s[:-1] ; s[len(s) - 1:] -> s[-1:]   (s a name; the
+    same for the empty sequence too.  Not for k > 1: with len(s) < k the
+    two spellings clamp differently)"""
+    if not (isinstance(x, ast.Subscript) and isinstance(x.value, ast.Name)
+            and isinstance(x.slice, ast.Slice) and x.slice.step is None):
+        return None
+    name = x.value.id
+
+    def rel(b):
+        if isinstance(b, ast.BinOp) and isinstance(b.op, ast.Sub) and \
+                isinstance(b.left, ast.Call) and isinstance(
+                    b.left.func, ast.Name) and b.left.func.id == "len" and \
+                len(b.left.args) == 1 and isinstance(
+                    b.left.args[0], ast.Name) and \
+                b.left.args[0].id == name and isinstance(
+                    b.right, ast.Constant) and type(
+                        b.right.value) is int and b.right.value == 1:
+            return ast.copy_location(ast.UnaryOp(
+                op=ast.USub(), operand=ast.Constant(value=b.right.value)), b)
+        return None
+    lo, hi = x.slice.lower, x.slice.upper
+    nlo = rel(lo) if lo is not None else None
+    nhi = rel(hi) if hi is not None else None
+    if nlo is None and nhi is None:
+        return None
+    if (nlo is not None and hi is not None) or (
+            nhi is not None and lo is not None):
+        return None
+    new = copy.deepcopy(x)
+    new.slice = ast.Slice(lower=nlo if nlo is not None else lo,
+                          upper=nhi if nhi is not None else hi, step=None)
+    return ast.copy_location(new, x)
+
+
+def _fold_int_arith(x):
+    """2 * 30 -> 60 (+ - * of two integer literals)"""
+    if isinstance(x, ast.BinOp) and isinstance(
+            x.op, (ast.Add, ast.Sub, ast.Mult)) and all(
+                isinstance(o, ast.Constant) and type(o.value) is int
+                for o in (x.left, x.right)):
+        a, b = x.left.value, x.right.value
+        v = a + b if isinstance(x.op, ast.Add) else (
+            a - b if isinstance(x.op, ast.Sub) else a * b)
+        if v < 0:
+            return ast.copy_location(ast.UnaryOp(
+                op=ast.USub(), operand=ast.Constant(value=-v)), x)
+        return ast.copy_location(ast.Constant(value=v), x)
+    return None
+
+
+def _anyall_literal(x, in_test):
+    """any(f(v) for v in (a, b)) -> f(a) or f(b); all(...) -> ... and ...
+    (a literal sequence of at most six names/attributes/constants, one
+    generator without conditions).  Where the element is not itself a
+    boolean expression, only in the position of a test (same truth)."""
+    if not (isinstance(x, ast.Call) and isinstance(x.func, ast.Name) and
+            x.func.id in ("any", "all") and len(x.args) == 1 and
+            not x.keywords):
+        return None
+    g = x.args[0]
+    if isinstance(g, (ast.Tuple, ast.List)):
+        items = list(g.elts)
+        elt_of = lambda it: it                              # noqa: E731
+        proto = items[0] if items else None
+    elif isinstance(g, (ast.GeneratorExp, ast.ListComp)) and len(
+            g.generators) == 1 and not g.generators[0].ifs and \
+            not g.generators[0].is_async and isinstance(
+                g.generators[0].target, ast.Name) and isinstance(
+                    g.generators[0].iter, (ast.Tuple, ast.List)):
+        items = list(g.generators[0].iter.elts)
+        tname = g.generators[0].target.id
+        proto = g.elt
+
+        def elt_of(it):
+            return _ReplaceAll(tname, it).visit(copy.deepcopy(g.elt))
+    else:
+        return None
+    if not 2 <= len(items) <= 6 or not all(_pure_operand(i) for i in items):
+        return None
+    if any(isinstance(n, (ast.Call, ast.NamedExpr, ast.Lambda, ast.Await,
+                          ast.Yield, ast.YieldFrom))
+           for n in ast.walk(proto)):
+        return None
+    if not (in_test or all(_is_boolean_expr(elt_of(i)) for i in items)):
+        return None
+    op = ast.Or() if x.func.id == "any" else ast.And()
+    return ast.copy_location(ast.BoolOp(
+        op=op, values=[elt_of(i) for i in items]), x)
 
 
 def _const_attr_call(x):
